@@ -39,6 +39,9 @@ def handleToolbox (op : String) (j : Json) : Option Json :=
       ("pre", gisJ m.pre), ("post", gisJ m.post), ("ancilla", toJson m.ancilla),
       ("measured", match m.measured with | some q => toJson q | none => Json.null),
       ("trace", Json.arr ((m.trace bases.length).map tevJ).toArray),
+      ("kind", toJson m.storedKind),
+      ("stored", Json.arr #[ofNats [m.stored false 0, m.stored false 1],
+                            ofNats [m.stored true 0, m.stored true 1]]),
       ("res", Json.arr #[ofNats [m.result false 0, m.result false 1],
                          ofNats [m.result true 0, m.result true 1]])])
   else none
